@@ -102,6 +102,18 @@ def run(ctx):
     got = sorted(src(n.ast) for n in four)
     ctx.ob("C02.OFFSET", pp, "a 4-digit offset splits into HH and MM", got == ["hour_offset = int(l[i + 1][:2])", "min_offset = int(l[i + 1][2:])"], construct="HHMM split", detail=str(got))
 
+    # ---------------------------------------------------------------- C02.FLAGS
+    for flag in ("dayfirst", "yearfirst"):
+        defs = [n for n in cfg.live_nodes() if n.kind == "stmt" and isinstance(n.ast, (ast.Assign, ast.AugAssign)) and any(
+            isinstance(t, ast.Name) and t.id == flag for t in (n.ast.targets if isinstance(n.ast, ast.Assign) else [n.ast.target]))]
+        ok = len(defs) == 1 and src(defs[0].ast.value) == "info." + flag and (flag + " is None", True) in facts.at(defs[0])
+        ctx.ob("C02.FLAGS", pp, "the parserinfo default for %s is used only when the option was not given (`is None`): an explicit False must win" % flag, ok,
+               construct="default of %s" % flag, detail="" if ok else str([(stmt_text(n), sorted(t for t, tv in facts.at(n) if tv and flag in t)) for n in defs]),
+               analysis="must-hold branch facts")
+    res_call = [x for x in walk_local(pp.node) if isinstance(x, ast.Call) and src(x.func) == "ymd.resolve_ymd"]
+    ctx.ob("C02.FLAGS", pp, "the flags reach the year/month/day resolution in (yearfirst, dayfirst) order", len(res_call) == 1 and [src(a) for a in res_call[0].args] == ["yearfirst", "dayfirst"],
+           construct="ymd.resolve_ymd(yearfirst, dayfirst)")
+
     # ---------------------------------------------------------------- C02.BOUNDS
     n_b = 0
     for f in (prog.method(ymd.qualname, "resolve_ymd", "C02.BOUNDS"), prog.method(ymd.qualname, "could_be_day", "C02.BOUNDS")):
